@@ -120,6 +120,7 @@ def run_case(case, R):
         w.acc.on_request = hook
         try:
             p = w.pairing
+            shared = set()
             await p.list_accessories_and_characteristics()
             expected.append({"method": "GET", "target": "/accessories", "no_body": True})
             for op in ops:
@@ -132,7 +133,13 @@ def run_case(case, R):
                         await p.list_accessories_and_characteristics()
                     elif name == "get":
                         ids = [tuple(x) for x in op[1]]
-                        arg = set(ids) if op[2] == "set" else ids
+                        if op[2] == "shared":
+                            # a caller that keeps one set object and changes it in place between polls
+                            shared.clear()
+                            shared.update(ids)
+                            arg = shared
+                        else:
+                            arg = set(ids) if op[2] == "set" else (tuple(ids) if op[2] == "tuple" else ids)
                         expected.append({"method": "GET", "ids": sorted(set(ids)), "no_body": True})
                         await p.get_characteristics(arg)
                     elif name == "put":
@@ -258,7 +265,7 @@ def op(draw):
     name = draw(st.sampled_from(["move", "list", "get", "get", "put", "put", "subscribe", "unsubscribe", "identify", "list_pairings", "add_pairing",
                                  "remove_pairing", "image", "raw_get", "raw_put_json", "raw_post_json", "raw_post", "raw_put"]))
     if name == "get":
-        return [name, draw(IDSETS), draw(st.sampled_from(["list", "set"]))]
+        return [name, draw(IDSETS), draw(st.sampled_from(["list", "set", "shared", "shared", "tuple"]))]
     if name == "put":
         ids = draw(st.lists(st.sampled_from(WRITABLE), min_size=1, max_size=4, unique=True))
         return [name, [[a, i, draw(JSON_VALUES)] for a, i in ids]]
@@ -291,6 +298,8 @@ def enum_fixed(tier):
     for a, b in (("v4", "v6"), ("v6", "v4"), ("v4", "v4b"), ("v6scoped", "v6full")):
         yield {"host": a, "host2": b, "k": 2, "ops": [["get", [[1, 9]], "list"], ["move"], ["get", [[1, 9], [2, 10]], "list"], ["put", [[1, 9, True]]], ["move"], ["list"],
                                                    ["raw_post", "/x", b"\x01\x02"]]}
+    yield {"host": "v6", "k": 4, "ops": [["get", [[1, 9], [1, 10]], "shared"], ["get", [[1, 9], [1, 10], [2, 10]], "shared"], ["get", [[1, 9]], "shared"],
+                                         ["get", [[1, 9]], "tuple"], ["get", [[2, 9], [1, 9]], "shared"]]}
     yield {"host": "v4", "k": 3, "ops": [["put", [[1, 9, 2**64]]], ["put", [[1, 10, [1, {"a": -2**63 - 1}]]]], ["raw_put_json", "/x", {"n": 10**30}], ["raw_post_json", "/x", [2**64 + 1]]]}
     for hk in sorted(HOSTS):
         yield {"host": hk, "k": 1, "ops": [["list"], ["get", [[1, 9]], "list"], ["get", [[1, 9], [2, 10], [1, 10]], "set"],
